@@ -7,6 +7,7 @@ import rxsci.framing.length_prefix as lp
 from vp import drivers as D
 from vp.engine import Ob
 from vp.harness import mk, fail
+from vp import harness
 from vp.stubs import tinyio
 
 PROP = 'C15'
@@ -87,13 +88,9 @@ def line_items(p):
 
 
 def _with_stub(f):
-    mod = sys.modules['rxsci.framing.length_prefix']
-    real = mod.io
-    mod.io = tinyio.FakeIO
-    try:
+    # optional: an unframe that does not go through io.BytesIO needs no stub
+    with harness.stubbed([('rxsci.framing.length_prefix', 'io', tinyio.FakeIO, True)]):
         return f()
-    finally:
-        mod.io = real
 
 
 def lp_roundtrip(p):
